@@ -32,7 +32,7 @@ def pval(x, s, b):
     return Struct(P, [("x", Int(x)), ("s", s), ("b", Bool(b))])
 
 
-SPECIAL = {"quote": 34, "backslash": 92, "tab": 9, "ctrl-01": 1, "bel": 7, "vt": 11, "del": 127, "slash": 47, "ff": 12, "bs": 8, "esc": 27}
+SPECIAL = {"newline": 10, "cr": 13, "quote": 34, "backslash": 92, "tab": 9, "ctrl-01": 1, "bel": 7, "vt": 11, "del": 127, "slash": 47, "ff": 12, "bs": 8, "esc": 27}
 
 
 def programs(tier):
@@ -60,8 +60,9 @@ def programs(tier):
     add("empty-struct", [Let("v", Struct(TAdt("Z"), []), ty=TAdt("Z"))] + both("v", "Z"), expect="accept")
     # strings: every special character, alone and in company (written through multi-line string literals, which need a line feed)
     for name, b in SPECIAL.items():
-        add(f"json-string:{name}", [Let("s", Str(bytes([97, b, 98, 10, 99]))), Let("v", pval(1, Var("s"), True), ty=P)] + both("v", "P"), expect="accept")
-    add("json-string:newline-only", [Let("s", Str(b"l1\nl2")), Let("v", Ctor(C, "B", Var("s"), Bool(True)), ty=C)] + both("v", "C"), expect="accept")
+        add(f"json-string:{name}", [Let("s", Str(bytes([97, b, 98]))), Let("v", pval(1, Var("s"), True), ty=P)] + both("v", "P"), expect="accept")
+        add(f"json-string-multiline:{name}", [Let("s", Str(bytes([97, b, 98, 10, 99]), multiline=True)), Let("v", pval(1, Var("s"), True), ty=P)] + both("v", "P"), expect="accept")
+    add("json-string:newline-only", [Let("s", Str(b"l1\nl2", multiline=True)), Let("v", Ctor(C, "B", Var("s"), Bool(True)), ty=C)] + both("v", "C"), expect="accept")
     add("json-string:mix", [Let("s", Str(b'"\\\n\t/ \xc3\xa9"')), Let("v", pval(1, Var("s"), True), ty=P)] + both("v", "P"), expect="accept")
     # floats
     def fdecl(p):
